@@ -258,6 +258,22 @@ class World:
             return tag + ": retargeting an alignment changed the pseudoinverse taken from it earlier"
         if not np.array_equal(inv_ref.source.points, src_inv):
             return tag + ": retargeting changed the source of an inverse taken earlier"
+        # ... also when source and target are of different point-carrying classes (a cloud aligned to a mesh): a parameter update of
+        # a copy must not reach the original (the two share their end points by documented design - so those must be REPLACED)
+        if hasattr(al, "h_matrix") and hasattr(al, "from_vector_inplace"):
+            from menpo.shape import TriMesh
+
+            try:
+                o_ = _ctor(cfg)(self.source(cfg), TriMesh(fitted_to.copy(), trilist=np.array([[0, 1, 2], [0, 2, 3]])))
+                k_ = o_.copy()
+                h0, t0 = o_.h_matrix.copy(), o_.target.points.copy()
+                v_ = np.array(k_.as_vector(), dtype=float)
+                k_.from_vector_inplace(v_ + np.array([0.3, 0.7, -0.2, 0.5, 0.25, -0.4, 0.1, 0.6])[:len(v_)])
+                if not np.array_equal(o_.h_matrix, h0) or not np.array_equal(o_.target.points, t0):
+                    return tag + ": a parameter update of a COPY of an alignment (cloud source, mesh target) changed the original's %s" % (
+                        "matrix" if not np.array_equal(o_.h_matrix, h0) else "target")
+            except NotImplementedError:
+                pass
         # the plain (non-alignment) transform taken from an alignment is its own object as well
         if hasattr(al, "as_non_alignment") and hasattr(al, "h_matrix"):
             c3 = al.copy()
@@ -277,7 +293,22 @@ class World:
 
         if ev["op"] not in ("build", "set_target") or i != (ev.get("a") or 1) - 1:
             return None
-        for dt in (np.float32, np.int64):
+        for dt in (np.float32, np.int64, np.uint16, np.uint32):
+            if np.dtype(dt).kind == "u":
+                # unsigned pixel coordinates: the same problem shifted into the positive quadrant (the fit of the shifted sets is
+                # the reference; families that contain translations only - the others are not translation-equivariant)
+                if cfg not in ("translation", "similarity", "similarity_m", "similarity_norot", "similarity_norot_m", "affine"):
+                    continue
+                sh_ = np.array([20.0, 30.0])
+                ref_u = _ctor(cfg)(PointCloud(self.src_pts + sh_), PointCloud(fitted_to + sh_))
+                try:
+                    other = _ctor(cfg)(PointCloud((self.src_pts + sh_).astype(dt)), PointCloud((fitted_to + sh_).astype(dt)))
+                    got = np.asarray(other.apply(probe + sh_), dtype=float)
+                except Exception as e:
+                    return tag + ": refused / failed on point sets stored as %s (%s: %s)" % (np.dtype(dt).name, type(e).__name__, str(e)[:100])
+                if not np.allclose(got, ref_u.apply(probe + sh_), rtol=0, atol=1e-6 * max(1.0, self.diam)):
+                    return tag + ": the fit to point sets stored as %s (unsigned) is a different map" % np.dtype(dt).name
+                continue
             S = self.src_pts.astype(dt)
             src = TriMesh(S, trilist=np.array([[0, 1, 2], [0, 2, 3]])) if cfg == "pwa" else PointCloud(S)
             try:
